@@ -1,4 +1,4 @@
 From Coq Require Import List NArith.
-From Tink Require Import XBase Bytes Cmac Hmac Mac.
+From Tink Require Import XBase Bytes Cmac Hmac Mac HmacCode.
 Require Import ExtrOcamlBasic.
-Extraction "m.ml" xb_add xb_mul xb_div_eucl build build_set pprefix pcompute pverify std_mac output_prefix.
+Extraction "m.ml" xb_add xb_mul xb_div_eucl build build_set pprefix pcompute pverify std_mac output_prefix hm_new hm_run acc_init acc_write block_size.
